@@ -6,7 +6,7 @@ patch = os.path.abspath(sys.argv[1])
 props = None
 if len(sys.argv) > 3 and sys.argv[2] == "--props":
     props = sys.argv[3].split(",")
-ALL = ["C01","C02","C03","C04","C05","C06","C07","C08","C09","C10","C11","C12","C13","C14","C15","C16","C17","C18","C19"]
+ALL = ["C01","C02","C03","C04","C05","C06","C07","C08","C09","C10","C11","C12","C13","C14","C15","C16","C17","C18","C19","C20"]
 st = subprocess.run(["git", "-C", "/repo", "status", "--porcelain"], capture_output=True, text=True).stdout.strip()
 if st:
     sys.exit("refusing: /repo working tree is not clean:\n" + st)
